@@ -8,6 +8,9 @@ with values (`Buildable`) and every probe key / prefix.
 -/
 import LinVerif.Lemmas.C20Get
 import LinVerif.Lemmas.C20SeekList
+import LinVerif.Model.Louds
+import LinVerif.Model.TrieBucket
+import LinVerif.Generated.C20
 
 set_option linter.unusedSimpArgs false
 set_option linter.unusedVariables false
@@ -162,6 +165,95 @@ theorem prefix_iter_eq_filter {kvs : List KV} {t : Node} (h : Buildable kvs) (ht
 theorem scan_shortcut_sound (cur : Nat) (labels : List Nat) (hmono : labels.Pairwise (· ≤ ·))
     (hlo : ∀ l ∈ labels, cur ≤ l) : scanGroup cur labels = (labels.takeWhile (· == cur)).length :=
   scanGroup_eq cur labels hmono hlo
+
+/-! ### ties to the facts regenerated from /repo's source (`lvh extract`) -/
+section Ties
+open LinVerif.Louds
+
+theorem gen_labelTerminator : Generated.C20.labelTerminator = labelTerminator := rfl
+theorem gen_wordSize : Generated.C20.wordSize = wordSize := rfl
+theorem gen_rankSparseBlockSize : Generated.C20.rankSparseBlockSize = rankSparseBlockSize := rfl
+theorem gen_selectSampleInterval : Generated.C20.selectSampleInterval = selectSampleInterval := rfl
+
+/-- the bitmap kinds `bitVector.Init` switches on (HasPrefix is sized by nodes, the others by labels) -/
+theorem gen_bitmap_kinds :
+    (Generated.C20.bitmapHasChild, Generated.C20.bitmapLouds, Generated.C20.bitmapHasPrefix,
+      Generated.C20.bitmapHasSuffix) = (1, 2, 3, 4) := rfl
+
+/-- `skipEnd := groupEnd + 4` followed by `continue`: five labels are taken per shortcut, as in
+`scanGroup` -/
+theorem gen_skipEnd (g : Int) : Generated.C20.skipEnd g + 1 - g = 5 := by
+  unfold Generated.C20.skipEnd; omega
+
+/-- `valuePos(pos) = pos - hasChildVec.Rank(pos)` -/
+theorem gen_valuePos (f : Flat) (pos : Nat) (h : rankGo f.hasChildLut f.hasChild pos ≤ pos) :
+    (valuePos f pos : Int) =
+      Generated.C20.valuePos (fun p => (rankGo f.hasChildLut f.hasChild p.toNat : Nat)) pos := by
+  unfold valuePos Generated.C20.valuePos
+  simp only [Int.toNat_natCast]
+  omega
+
+/-- `firstLabelPos(nodeID) = loudsVec.Select(nodeID + 1)` -/
+theorem gen_firstLabelPos (f : Flat) (nodeID : Nat) :
+    (firstLabelPos f nodeID : Int) =
+      Generated.C20.firstLabelPos (fun k => (selectGo f.loudsLut f.louds k.toNat : Nat)) nodeID := by
+  unfold firstLabelPos Generated.C20.firstLabelPos
+  have : ((nodeID : Int) + 1).toNat = nodeID + 1 := by omega
+  simp only [this]
+
+/-- `childNodeID(pos) = hasChildVec.Rank(pos)` -/
+theorem gen_childNodeID (f : Flat) (pos : Nat) :
+    (childNodeID f pos : Int) =
+      Generated.C20.childNodeID (fun p => (rankGo f.hasChildLut f.hasChild p.toNat : Nat)) pos := by
+  unfold childNodeID Generated.C20.childNodeID
+  simp only [Int.toNat_natCast]
+
+/-- `nodeSize(pos) = loudsVec.DistanceToNextSetBit(pos)` -/
+theorem gen_nodeSize (f : Flat) (pos : Nat) :
+    (nodeSize f pos : Int) = Generated.C20.nodeSize (fun p => (distNext f.louds p.toNat : Nat)) pos := by
+  unfold nodeSize Generated.C20.nodeSize
+  simp only [Int.toNat_natCast]
+
+/-- the step order of `trie.Get` that `getNode` / `lget` mirror: prefix check, label search,
+hasChild test, then suffix check + value, or child node; after the loop prefix check, terminator
+test, suffix check + value -/
+theorem gen_get_calls : Generated.C20.getCalls =
+    ["tree.firstLabelPos", "len", "uint32", "tree.prefixID", "prefixVec.CheckPrefix", "len", "uint32",
+     "tree.nodeSize", "labelVec.Search", "hasChildVec.IsSet", "suffixVec.CheckSuffix", "tree.valuePos",
+     "values.Get", "tree.childNodeID", "tree.firstLabelPos", "tree.prefixID", "prefixVec.CheckPrefix",
+     "labelVec.GetLabel", "hasChildVec.IsSet", "suffixVec.CheckSuffix", "tree.valuePos", "values.Get"] := rfl
+
+/-- `Iterator.Seek` = `Reset`, `seek`, then the `moveToRightMostKey` fallback that `seekNode` builds in -/
+theorem gen_seek_calls : Generated.C20.seekCalls = ["it.Reset", "it.seek", "it.moveToRightMostKey"] := rfl
+
+/-- `labelVector.Search` is a linear `bytes.IndexByte` (first hit), as `getEntries`/`seekEntries` -/
+theorem gen_search_calls : Generated.C20.searchCalls =
+    ["len", "uint32", "len", "uint32", "bytes.IndexByte", "uint32"] := rfl
+
+/-- `buildNodes`: terminator append, recursive call for the one-way node, label append, suffix /
+value for a single key or child recursion, prefix, louds bit -/
+theorem gen_buildNodes_calls : Generated.C20.buildNodesCalls =
+    ["b.ensureLevel", "len", "len", "len", "append", "b.moveToNextItemSlot", "append", "b.buildNodes",
+     "append", "b.moveToNextItemSlot", "len", "len", "uint32", "setBit", "append", "append", "len", "uint32",
+     "setBit", "b.buildNodes", "uint32", "setBit", "append", "uint32", "setBit"] := rfl
+
+/-- `TrieBucket.Write`: sort tries by size, write the big ones as they are, iterate the pending
+ones with the empty prefix, rebuild through a `TrieBucketBuilder` (as `mergeTries`) -/
+theorem gen_bucket_write_calls : Generated.C20.bucketWriteCalls =
+    ["λ:tree.Size", "λ:tree.Size", "sort.Slice", "tree.Size", "w.Write", "append", "len", "w.Write",
+     "tree.NewPrefixIterator", "itr.Valid", "itr.Key", "len", "make", "copy", "append", "itr.Value", "append",
+     "itr.Next", "NewTrieBucketBuilder", "builder.Write"] := rfl
+
+/-- `TrieBucketBuilder.Write`: sort, then per block Reset / Build / size / Write (as `writeBlocks`) -/
+theorem gen_bucket_builder_calls : Generated.C20.bucketBuilderWriteCalls =
+    ["sort.Sort", "len", "len", "len", "len", "builder.Reset", "builder.Build", "builder.MarshalSize", "uint32",
+     "LittleEndian.PutUint32", "writer.Write", "builder.Write"] := rfl
+
+/-- `indexKVMerger.Merge`: unmarshal every block into one bucket, then `TrieBucket.Write` -/
+theorem gen_merger_calls : Generated.C20.mergerCalls =
+    ["model.NewTrieBucket", "trieBucket.Unmarshal", "kvWriter.Prepare", "trieBucket.Write", "kvWriter.Commit"] := rfl
+
+end Ties
 
 /-! ### non-vacuity -/
 
